@@ -1526,6 +1526,12 @@ func (c *ControlPlane) RebuildReloadDatapath() error {
 	if err := clearReloadDomainRoutingMap(c.core.bpf.Load()); err != nil {
 		return fmt.Errorf("rebuild clearReloadDomainRoutingMap: %w", err)
 	}
+	// The map is empty now, but this generation's tracker still holds the snapshots of everything it
+	// had published: without forgetting them the replay below re-syncs every owner with the snapshot
+	// the tracker already has, sends nothing, and the map stays empty.
+	if c.core.domainRouting != nil {
+		c.core.domainRouting.reset()
+	}
 	cache := c.CloneDnsCache()
 	c.pendingDnsReloadCache = cache
 	c.replayDnsReloadCache()
